@@ -90,6 +90,9 @@ func baseObj(v ssa.Value) ssa.Value {
 		case *ssa.MakeInterface:
 			v = x.X
 			continue
+		case *ssa.Slice:
+			v = x.X // same backing array
+			continue
 		case *ssa.Call:
 			// e.Str(...) returns e: chained builders
 			if sc := staticCallee(&x.Call); sc != nil && sc.Signature.Recv() != nil && len(x.Call.Args) > 0 &&
@@ -192,7 +195,22 @@ func derivedByAssert(x, v ssa.Value) bool {
 	return false
 }
 
-// usesObj: does the instruction read or write through obj, or hand it to a call?
+// loadedFromObj: v is (a slice of) a slice/pointer field value loaded from obj earlier
+func loadedFromObj(v ssa.Value, obj ssa.Value) bool {
+	v = baseObj(v)
+	fv, base := loadedField(v)
+	if fv == nil {
+		return false
+	}
+	switch fv.Type().Underlying().(type) {
+	case *types.Slice, *types.Pointer:
+		return sameObj(base, obj)
+	}
+	return false
+}
+
+// usesObj: does the instruction read or write through obj, or hand it (or a buffer loaded from
+// it) to a call?
 func usesObj(in ssa.Instruction, obj ssa.Value) bool {
 	switch x := in.(type) {
 	case *ssa.FieldAddr:
@@ -204,7 +222,7 @@ func usesObj(in ssa.Instruction, obj ssa.Value) bool {
 	case *ssa.Call, *ssa.Go, *ssa.Defer:
 		cc := callCommon(in)
 		for _, a := range cc.Args {
-			if sameObj(a, obj) {
+			if sameObj(a, obj) || loadedFromObj(a, obj) {
 				return true
 			}
 		}
@@ -259,9 +277,12 @@ func (a *a13) checkFunc(f *ssa.Function, rules string) {
 		}
 		a.nPuts++
 		name := FnName(f) + "/put:" + descr(baseObj(v))
+		// a path that re-executes the instruction defining the object deals with a new object
+		def, _ := baseObj(v).(ssa.Instruction)
+		redefined := func(x ssa.Instruction) bool { return def != nil && x == def }
 		if has('a') {
 			// (a) use after put
-			found, path := pathExists(f, in, func(x ssa.Instruction) bool { return usesObj(x, v) && a.putArgOf(x) == nil }, nil, nil)
+			found, path := pathExists(f, in, func(x ssa.Instruction) bool { return usesObj(x, v) && a.putArgOf(x) == nil }, redefined, nil)
 			r.Ob("A13a", name, p.Pos(in.Pos()), !found, true, tern(!found, "no access to the object after it was returned to the pool", "the object is used after it was returned to the pool (another goroutine may already own it)"))
 			_ = path
 		}
@@ -273,7 +294,7 @@ func (a *a13) checkFunc(f *ssa.Function, rules string) {
 				}
 				w := a.putArgOf(x)
 				return w != nil && sameObj(w, v)
-			}, nil, nil)
+			}, redefined, nil)
 			for _, d := range deferred {
 				if sameObj(d, v) {
 					found = true
